@@ -138,6 +138,11 @@ def _convert_internal_expression_to_pddl(
         if comp:
             components.append(comp)
 
+    if isinstance(expression, Mul) and len(components) < len(expression.args):
+        # a factor was rounded to zero: the whole product vanishes (dropping only that factor would
+        # turn 0.004 * x into x).
+        return None
+
     nested_expression = ""
     for component in reversed(components):
         if nested_expression:
@@ -168,13 +173,15 @@ def convert_expr_to_pddl(
     :return: the PDDL expression.
     """
     initial_operator = SYMPY_OP_TO_PDDL_OP[expr.func]
-    return _convert_internal_expression_to_pddl(
+    pddl_expression = _convert_internal_expression_to_pddl(
         expr,
         initial_operator,
         {val: key for key, val in symbolic_vars.items()},
         decimal_digits=decimal_digits,
         should_remove_trailing_zeros=should_remove_trailing_zeros,
     )
+    # everything was rounded to zero and removed: the expression is the number zero.
+    return pddl_expression if pddl_expression else "0"
 
 
 def transform_expression(
